@@ -277,6 +277,7 @@ pub fn run_batch<C: Check>(check: &C, opts: &Opts) -> BatchResult<C::Scenario> {
                     let sc = check.generate(&mut rng, opts.tier, i);
                     let mut st = RunStats::default();
                     crate::free::reset_run_state();
+                    crate::world::reset_params_cache();
                     merlin::tap::stop();
                     merlin::tap::reset_ids();
                     let viols = check.execute(&sc, &mut st);
@@ -357,6 +358,7 @@ pub fn minimise<C: Check>(check: &C, sc: &C::Scenario, invariant: &str) -> Optio
     let exec = |s: &C::Scenario| -> Option<Violation> {
         let mut st = RunStats::default();
         crate::free::reset_run_state();
+        crate::world::reset_params_cache();
         merlin::tap::stop();
         merlin::tap::reset_ids();
         check.execute(s, &mut st).into_iter().find(|v| v.invariant == invariant)
@@ -368,7 +370,7 @@ pub fn minimise<C: Check>(check: &C, sc: &C::Scenario, invariant: &str) -> Optio
     let mut execs = 1u64;
     let t0 = Instant::now();
     'outer: loop {
-        if execs > 400 || t0.elapsed().as_secs() > 120 {
+        if execs > 2000 || t0.elapsed().as_secs() > 120 {
             break;
         }
         for cand in check.shrink(&cur) {
@@ -378,7 +380,7 @@ pub fn minimise<C: Check>(check: &C, sc: &C::Scenario, invariant: &str) -> Optio
                 cur_v = v;
                 continue 'outer;
             }
-            if execs > 400 || t0.elapsed().as_secs() > 120 {
+            if execs > 2000 || t0.elapsed().as_secs() > 120 {
                 break 'outer;
             }
         }
@@ -416,6 +418,7 @@ pub fn replay<C: Check>(check: &C, file: &ReplayFile) -> Option<Violation> {
     let mut st = RunStats::default();
     st.keep_log = true;
     crate::free::reset_run_state();
+    crate::world::reset_params_cache();
     merlin::tap::stop();
     merlin::tap::reset_ids();
     let v = check.execute(&sc, &mut st);
